@@ -34,6 +34,8 @@ def replay(path):
 
 
 def extra(chk, info, res):
+    from checks import decisions_common as _dc
+    _dc.tie(chk, ['guards_heating', 'guards_tank'])
     from checks import guards_common
     guards_common.correspondence(chk, ['filtration_allow_heating', 'pump_stopped_in_standby'])
     if info is not None:
